@@ -1,9 +1,11 @@
 SPECIFICATION Spec
 CONSTANT UseMutex = FALSE
 CONSTANT SharedScratch = FALSE
+CONSTANT TryLock = FALSE
 INVARIANT ParEqualsSeq
 INVARIANT NoLostStrategyUpdate
 INVARIANT LockFree
 INVARIANT NoDeadlock
+INVARIANT NoPanic
 PROPERTY Terminates
 CHECK_DEADLOCK FALSE
